@@ -195,11 +195,21 @@ type c19ResvCfg struct {
 // holding). Dropped, each not allocation state: the Reservation object's resourceVersion / condition timestamps
 // (metav1.Now() at bind time), ReservationInfo.Pod (the reserve pod, a pure function of the Reservation object),
 // OwnerMatchers (parsed spec.owners), the nominator (per-scheduling-cycle hints of unbound pods, nothing of it is
-// persisted), preAllocatablePodsOnNode is dumped by size only (no pre-allocatable candidates in this part).
+// persisted), preAllocatablePodsOnNode is dumped by size only (no pre-allocatable candidates in this part);
+// Non0AllocatedMilliCPU / Non0AllocatedMem: scoring inputs with kube-scheduler's "non-zero request" defaults (100m /
+// 200MB substituted when a resource key is ABSENT from Allocated) - they depend on whether a released amount is kept as
+// an explicit 0 or the map is nil, i.e. on representation, and nobody holds them (differences are counted as
+// diagnostics); matchableOnNode is compared as the set of members whose ReservationInfo IsMatchable(): a consumed
+// allocate-once reservation stays a (stale) member until the next reservation event is handled and every consumer
+// re-checks it (FilterNominateReservation) - DESIGN 3.1 names "matchable map = IsMatchable set" a diagnostic of C05,
+// raw differences are counted.
 
 type c19ResvDump struct{ sections map[string][]string }
 
 var c19ResvSections = []string{"ledger", "assigned", "index-on-node", "index-matchable", "index-allocated", "candidates"}
+
+// c19ResvDiagSections are rendered and counted but never judged (see above).
+var c19ResvDiagSections = []string{"diag-non0", "diag-index-matchable-raw"}
 
 func c19ResvFmtRL(rl corev1.ResourceList) string {
 	ks := make([]string, 0, len(rl))
@@ -273,15 +283,23 @@ func c19ResvTakeDump(c *reservationCache) *c19ResvDump {
 			names = append(names, string(n))
 		}
 		sort.Strings(names)
-		d.sections["ledger"] = append(d.sections["ledger"], fmt.Sprintf("%s name=%s node=%s phase=%s policy=%q once=%v names=%v allocatable{%s} allocated{%s} reserved{%s} available{%s} allocatedRes{%s} non0=%d/%d ports{%s} matchable=%v parseErr=%v pods=%d",
+		d.sections["ledger"] = append(d.sections["ledger"], fmt.Sprintf("%s name=%s node=%s phase=%s policy=%q once=%v names=%v allocatable{%s} allocated{%s} reserved{%s} available{%s} allocatedRes{%s} ports{%s} matchable=%v parseErr=%v pods=%d",
 			uid, ri.GetName(), ri.GetNodeName(), phase, ri.GetAllocatePolicy(), ri.IsAllocateOnce(), names, c19ResvFmtRL(ri.Allocatable), c19ResvFmtRL(ri.Allocated), c19ResvFmtRL(ri.Reserved),
-			c19ResvFmtRes(ri.Available), c19ResvFmtRes(ri.AllocatedResource), ri.Non0AllocatedMilliCPU, ri.Non0AllocatedMem, c19ResvFmtPorts(ri.AllocatedPorts), ri.IsMatchable(), ri.ParseError != nil, len(ri.AssignedPods)))
+			c19ResvFmtRes(ri.Available), c19ResvFmtRes(ri.AllocatedResource), c19ResvFmtPorts(ri.AllocatedPorts), ri.IsMatchable(), ri.ParseError != nil, len(ri.AssignedPods)))
+		d.sections["diag-non0"] = append(d.sections["diag-non0"], fmt.Sprintf("%s non0=%d/%d", uid, ri.Non0AllocatedMilliCPU, ri.Non0AllocatedMem))
 		for puid, pr := range ri.AssignedPods {
 			d.sections["assigned"] = append(d.sections["assigned"], fmt.Sprintf("%s <- %s %s/%s req{%s} ports{%s}", uid, puid, pr.Namespace, pr.Name, c19ResvFmtRL(pr.Requests), c19ResvFmtPorts(pr.Ports)))
 		}
 	}
 	d.sections["index-on-node"] = c19ResvIndex(c.reservationsOnNode)
-	d.sections["index-matchable"] = c19ResvIndex(c.matchableOnNode)
+	d.sections["diag-index-matchable-raw"] = c19ResvIndex(c.matchableOnNode)
+	for node, uids := range c.matchableOnNode {
+		for uid := range uids {
+			if ri := c.reservationInfos[uid]; ri != nil && ri.IsMatchable() {
+				d.sections["index-matchable"] = append(d.sections["index-matchable"], fmt.Sprintf("%s:%s", node, uid))
+			}
+		}
+	}
 	d.sections["index-allocated"] = c19ResvIndex(c.allocatedOnNode)
 	for node, pc := range c.preAllocatablePodsOnNode {
 		d.sections["candidates"] = append(d.sections["candidates"], fmt.Sprintf("%s:%d", node, len(pc.index)))
@@ -290,6 +308,16 @@ func c19ResvTakeDump(c *reservationCache) *c19ResvDump {
 		sort.Strings(l)
 	}
 	return d
+}
+
+// Raw renders the judged and the not-judged sections (state key).
+func (d *c19ResvDump) Raw() string {
+	var sb strings.Builder
+	sb.WriteString(d.String())
+	for _, sec := range c19ResvDiagSections {
+		fmt.Fprintf(&sb, "[%s] %s\n", sec, strings.Join(d.sections[sec], "; "))
+	}
+	return sb.String()
 }
 
 func (d *c19ResvDump) String() string {
@@ -850,6 +878,11 @@ func (s *c19ResvSys) restartCheck() *c19ResvVerdict {
 			return out
 		}
 		got := c19ResvTakeDump(w.pl.reservationCache)
+		for _, sec := range c19ResvDiagSections {
+			if strings.Join(got.sections[sec], ";") != strings.Join(live.sections[sec], ";") {
+				v.counts["not_judged_"+sec+"_differs"]++
+			}
+		}
 		if gs := got.String(); gs != liveS {
 			secs := live.diff(got)
 			what := fmt.Sprintf("delivery %v into a fresh cache differs in %v:\n%s--- but the scheduler that made the allocations held\n%s(surviving: %s)", names(), secs, gs, liveS, s.worldString())
@@ -1014,7 +1047,7 @@ func (s *c19ResvSys) Key() string {
 	for _, p := range s.pods {
 		fmt.Fprintf(&sb, "p%d:%s:%d:t%v:b%v|", p.id, p.shape.name, p.r, p.terminated, p.seenBind)
 	}
-	sb.WriteString(c19ResvTakeDump(s.pl.reservationCache).String())
+	sb.WriteString(c19ResvTakeDump(s.pl.reservationCache).Raw())
 	// the nominator influences Reserve of later cycles only through entries of unbound pods; none survive an op
 	return sb.String()
 }
